@@ -130,6 +130,16 @@ def need(text, pattern, what):
     return mobj
 
 
+def byte_order_calls(F):
+    out = []
+    for b in F.all_bodies():
+        for _, t in b.calls():
+            nme = callee_name(t).split("::")[-1]
+            if nme in ("to_be", "to_le", "from_be", "from_le", "swap_bytes", "to_be_bytes", "to_le_bytes", "from_be_bytes", "from_le_bytes", "to_ne_bytes", "from_ne_bytes"):
+                out.append((b.name, nme))
+    return out
+
+
 def check(ctx):
     configs = ["native"] if ctx.tier == "quick" else ["native", "portable", "native-rel", "portable-rel"]
     text, lists = parse_doc(os.path.join(ctx.repo, "SERIALIZATION.md"))
@@ -137,6 +147,9 @@ def check(ctx):
     ctx.floor("document-format-lists", 10)
     for cfg in configs:
         check_config(ctx, ctx.facts(cfg), "" if cfg == "native" else "@" + cfg, text, lists)
+    if ctx.tier == "thorough":
+        import poscontrol
+        poscontrol.run(ctx, "C07")
 
 
 def check_config(ctx, F, tag, text, lists):
@@ -212,12 +225,7 @@ def check_config(ctx, F, tag, text, lists):
     need(text, r"multiple of 8 bytes", "file size")
     ctx.ob("C07.R2.document-constant", "element" + tag, doc, F.const("bits::WORD_BITS") == 64 and F.const("bits::WORD_BYTES") == 8 and F.data["target"]["endian"].lower() == "little" and F.data["target"]["pointer_bits"] == 64,
            "constant", "64-bit little-endian elements: WORD_BITS=%d WORD_BYTES=%d target endian=%s usize bits=%d" % (F.const("bits::WORD_BITS"), F.const("bits::WORD_BYTES"), F.data["target"]["endian"], F.data["target"]["pointer_bits"]))
-    swaps = []
-    for b in F.all_bodies():
-        for _, t in b.calls():
-            nme = callee_name(t).split("::")[-1]
-            if nme in ("to_be", "to_le", "from_be", "from_le", "swap_bytes", "to_be_bytes", "to_le_bytes", "from_be_bytes", "from_le_bytes", "to_ne_bytes", "from_ne_bytes"):
-                swaps.append((b.name, nme))
+    swaps = byte_order_calls(F)
     ctx.ob("C07.R2.no-byte-order-conversion", "crate" + tag, "src/", not swaps, "who-may-call", "elements are copied bytes; byte-order conversion calls in the crate: %s" % swaps, nontrivial=False)
     need(text, r"floor\(\(n \+ 63\) / 64\)", "raw bitvector word count")
     bw = F.body("bits::bits_to_words")
@@ -246,7 +254,9 @@ def check_config(ctx, F, tag, text, lists):
            "closed blocks are padded by data.resize(.., 0): %s" % (len(rs) == 1))
     need(text, r"bytes of padding with byte value 0", "byte padding")
     need(text, r"Any unused bits in the last element must be set to `0`", "unused bits")
-    ctx.note("zero byte padding is decided by C06.R2.basic.bytes-body; zero unused bits by C05.R1")
+    ctx.note("zero byte padding is decided by C06.R2.basic.bytes-body")
+    import c05
+    c05.check_tail_invariant(ctx, F, tag, prefix="C07.R3.unused-bits-zero")
 
     # ---------------- R4 minimal widths
     need(text, r"`first` must be bit-packed to minimize its width", "first width")
